@@ -89,6 +89,7 @@ def sessions(items, ts, closing, active, inactive, cm, include):
 
 def units(tier):
     out = []
+    out.append({'fam': 'sharedlist'})
     L = 5 if tier == 'quick' else 7
     for ci in range(len(CONFIGS)):
         for dt in (False, True):
@@ -115,6 +116,9 @@ def _histories(L, closing):
 
 
 def cases(unit):
+    if unit.get('fam') == 'sharedlist':
+        yield {'fam': 'sharedlist'}
+        return
     if unit['fam'] == 'probe':
         # gaps of a day and more (datetime arithmetic), fractional-second gaps and timeouts, thousands of live keys
         for gaps in itertools.product([1, 86400, 86401, 172799, 3], repeat=4):
@@ -204,6 +208,13 @@ def run_probe(case, acc):
 
 
 def run_case(case, acc):
+    if case.get('fam') == 'sharedlist':
+        # one list object used as the pipeline of two operators
+        import rxsci as rs
+        d = harness.shared_list_problem(lambda L: rs.data.time_split(time_mapper=lambda x: x, active_timeout=3, pipeline=L), lambda L: rs.data.time_split(time_mapper=lambda x: x, inactive_timeout=2, pipeline=L), [0, 1, 2, 5, 6, 9])
+        acc.evals += 3
+        acc.count('shared_pipeline_lists')
+        return [viol('sharedlist', 'pipeline-list-shared-by-two-operators', d)] if d else []
     if case['fam'] in ('days', 'floats', 'manykeys'):
         return run_probe(case, acc)
     a, i, c, inc = CONFIGS[case['cfg']]
